@@ -854,6 +854,14 @@ class Interp:
         qn = fr.closure.qualname
         header = ast.unparse(st.test)
         spec = self.loopspecs.get((qn, header))
+        if spec is None:
+            # fall back to the loop's ordinal among the while loops of the function (header text was edited)
+            whiles = [n for n in ast.walk(fr.closure.node) if isinstance(n, ast.While)]
+            whiles.sort(key=lambda n: (n.lineno, n.col_offset))
+            ordinal = whiles.index(st) if st in whiles else -1
+            keys = [k for k in self.loopspecs if k[0] == qn]
+            if 0 <= ordinal < len(keys) and len(keys) == len(whiles):
+                spec = self.loopspecs[keys[ordinal]]
         if spec is not None:
             return self.while_with_invariant(st, fr, spec, header)
         bound = self.unroll.get(qn, self.unroll.get("*", 0))
